@@ -21,6 +21,7 @@ CONSTANTS
   PairFirst = {0, 1, 4095, 4096, 4097, 16383, 16384, 16385, 1048543, 1048544, 1048545, 1048559, 1048560, 1048561, 1048575, 1048576, 1048577, 2097157}
   TypedFlush = {FALSE}
   Interleave = FALSE
+  MaxAbandon = 0
   Bug = {}
 INVARIANT EmitTrace
 CHECK_DEADLOCK FALSE
